@@ -33,6 +33,7 @@ import (
 // ---------------------------------------------------------------- probe mode
 
 type probeOut struct {
+	Tag        string
 	Cwd        string
 	Env        []string
 	Fd1, Fd2   string
@@ -64,8 +65,15 @@ func probe() {
 	p.Fd2, _ = os.Readlink("/proc/self/fd/2")
 	p.Fd1F, p.Fd1Append = fdFlags(1)
 	p.Fd2F, p.Fd2Append = fdFlags(2)
+	if len(os.Args) > 2 {
+		p.Tag = os.Args[2]
+	}
 	b, _ := json.Marshal(p)
 	out := os.Getenv("PROBE_OUT")
+	if d := os.Getenv("PROBE_DIR"); d != "" {
+		// inside a real play: one file per probed command
+		out = filepath.Join(d, fmt.Sprintf("%d-%d.json", time.Now().UnixNano(), os.Getpid()))
+	}
 	if out == "" {
 		os.Exit(3)
 	}
@@ -87,6 +95,7 @@ type actionDef struct {
 }
 
 type roleDef struct {
+	Extra   []string // further lines of the role section (signals)
 	Name    string
 	Extends string
 	Actions []*actionDef
@@ -95,7 +104,8 @@ type roleDef struct {
 }
 
 type withItem struct {
-	Name, Val string
+	Name, Val string // Val: the value the command must see (when Literal)
+	Src       string // the text after NAME= in the configuration
 	Literal   bool
 	Semi      bool // separated from the previous item by "; " instead of " "
 }
@@ -124,6 +134,8 @@ type execObs struct {
 	Fd1, Fd2              string
 	Fd1Append, Fd2Append  bool
 	LogKept               bool
+	StreamsOK             bool // a spotlight run by the real play: a line of its stdout and one of its stderr reached the signal filters
+	Note                  string
 }
 
 type castCase struct {
@@ -151,6 +163,37 @@ var varPool = []string{"patient", "road", "port", "a", "b", "X_1", "mode", "_u",
 const valChars = "abcdefghijklmnopqrstuvwxyzABCDEFGHIJKLMNOPQRSTUVWXYZ0123456789_./:,+@%=-"
 
 func pick(rng *rand.Rand, l []string) string { return l[rng.Intn(len(l))] }
+
+// quotedValue: a value between quotes, with runs of blanks and tabs inside.
+func quotedValue(rng *rand.Rand, multi bool) (src, val string, lit bool) {
+	words := []string{"ACT", "ONE", "x", "it is", "a:b", "k;l", "7", "Zoé"}
+	gaps := []string{" ", "   ", "\t", " \t ", "  "}
+	n := 1 + rng.Intn(3)
+	var sb strings.Builder
+	if rng.Intn(4) == 0 {
+		sb.WriteString(gaps[rng.Intn(len(gaps))])
+	}
+	for i := 0; i < n; i++ {
+		if i > 0 {
+			sb.WriteString(gaps[rng.Intn(len(gaps))])
+		}
+		sb.WriteString(words[rng.Intn(len(words))])
+	}
+	body := sb.String()
+	switch k := rng.Intn(5); {
+	case k < 2:
+		return "\"" + body + "\"", body, true
+	case k < 4:
+		return "'" + body + "'", body, true
+	default:
+		// a reference between double quotes, and text glued to the quotes
+		ref := "$HOME"
+		if multi {
+			ref = "$i"
+		}
+		return "pre\"" + body + "  " + ref + " \"post", "", false
+	}
+}
 
 func genValue(rng *rand.Rand, earlier []string, multi bool) (string, bool) {
 	if rng.Intn(6) == 0 {
@@ -197,7 +240,10 @@ func genWith(rng *rand.Rand, multi bool) ([]withItem, string) {
 			name = pick(rng, varPool[:9])
 		}
 		v, lit := genValue(rng, names, multi)
-		it := withItem{Name: name, Val: v, Literal: lit}
+		it := withItem{Name: name, Val: v, Src: v, Literal: lit}
+		if rng.Intn(4) == 0 {
+			it.Src, it.Val, it.Literal = quotedValue(rng, multi)
+		}
 		if i > 0 {
 			it.Semi = rng.Intn(3) == 0
 			if it.Semi {
@@ -206,7 +252,7 @@ func genWith(rng *rand.Rand, multi bool) ([]withItem, string) {
 				sb.WriteString(" ")
 			}
 		}
-		sb.WriteString(name + "=" + v)
+		sb.WriteString(name + "=" + it.Src)
 		items = append(items, it)
 		names = append(names, name)
 	}
@@ -485,6 +531,9 @@ func (c *castCase) render() string {
 		if r.Clean != nil {
 			sb.WriteString("  cleanup " + r.Clean.Src + "\n")
 		}
+		for _, l := range r.Extra {
+			sb.WriteString("  " + l + "\n")
+		}
 		sb.WriteString("end\n")
 	}
 	sb.WriteString("cast\n")
@@ -536,7 +585,7 @@ type pending struct {
 func (c *castCase) prepareOne(rng *rand.Rand, caseDir string, n int, inner liveActor, script string, spot bool,
 	viaActor, viaScript string, paths map[string]map[string]string, workdirs map[string]string) *pending {
 	e := execObs{Actor: inner.Name, Script: script, ViaActor: viaActor, ViaScript: viaScript,
-		Index: inner.Index, With: inner.Def.With, Spotlight: spot}
+		Index: inner.Index, With: inner.Def.With, Spotlight: spot, StreamsOK: true}
 	p := &pending{}
 	p.foreign = filepath.Join(caseDir, "foreign"+strconv.Itoa(n))
 	e.CallerCwd = p.foreign
@@ -647,6 +696,192 @@ func (p *pending) executeOne() {
 	}
 }
 
+// ---------------------------------------------------------------- real plays
+
+// genPlay builds a configuration the real CLI can play: every action,
+// spotlight and cleanup command is the probe; a spotlight also prints a line
+// on stdout and one on stderr that two signals pick up.
+func genPlay(rng *rand.Rand, self string) (*castCase, string) {
+	c := &castCase{}
+	nR := 1 + rng.Intn(2)
+	used := map[string]bool{}
+	for k := 0; k < nR; k++ {
+		var name string
+		for {
+			name = pick(rng, rolePool)
+			if !used[name] {
+				break
+			}
+		}
+		used[name] = true
+		an := pick(rng, actionPool)
+		r := &roleDef{Name: name}
+		pc := self + " -probe " + an
+		r.Actions = []*actionDef{{Name: an, Kind: "probe", Src: pc, Cmd: pc}}
+		if k == 0 || rng.Intn(2) == 0 {
+			sc := self + " -probe _spotlight; echo \"sigout 1\"; echo \"sigerr 2\" >&2; sleep 0.5"
+			r.Spot = &actionDef{Name: "_spotlight", Kind: "probe", Src: sc, Cmd: sc}
+			r.Extra = []string{"signal so scalar at (?P<ts_now>)sigout (?P<scalar>\\d+)", "signal se scalar at (?P<ts_now>)sigerr (?P<scalar>\\d+)"}
+		}
+		if rng.Intn(3) > 0 {
+			cc := self + " -probe _cleanup"
+			r.Clean = &actionDef{Name: "_cleanup", Kind: "probe", Src: cc, Cmd: cc}
+		}
+		c.Roles = append(c.Roles, r)
+	}
+	usedA := map[string]bool{}
+	for k := 0; k < 2; k++ {
+		var name string
+		for {
+			name = pick(rng, actorPool)
+			if !usedA[name] {
+				break
+			}
+		}
+		usedA[name] = true
+		d := &actorDef{Name: name, Role: c.Roles[k%nR].Name} // every role has an actor
+		if k == 1 {
+			d.Mul = 2 + rng.Intn(2)
+		}
+		d.With, d.WithTxt = genWith(rng, d.Mul > 0)
+		c.Cast = append(c.Cast, d)
+	}
+	var sb strings.Builder
+	sb.WriteString(c.render())
+	sb.WriteString("script\n  tempo 100ms\n")
+	story := ""
+	for k, r := range c.Roles {
+		h := string(rune('a' + k))
+		sb.WriteString("  scene " + h + " entails for every " + r.Name + ": " + r.Actions[0].Name + "\n")
+		story += h
+	}
+	sb.WriteString("  storyline " + story + "..\nend\naudience\n")
+	for _, r := range c.Roles {
+		if r.Spot != nil {
+			sb.WriteString("  aud watches every " + r.Name + " so\n  aud watches every " + r.Name + " se\n")
+		}
+	}
+	sb.WriteString("end\n")
+	return c, sb.String()
+}
+
+// runPlay plays the configuration with the real CLI and turns what the probed
+// commands reported into executions of the cast.
+func runPlay(rng *rand.Rand, bin, root string, c *castCase, cfg string) {
+	cwd := filepath.Join(root, "cwd")
+	probes := filepath.Join(root, "probes")
+	for _, d := range []string{cwd, probes, filepath.Join(root, "home"), filepath.Join(root, "tmp")} {
+		os.MkdirAll(d, 0755)
+	}
+	c.Cfg = cfg
+	c.Shell = "/bin/bash"
+	c.Base = cwd
+	c.DataDir = filepath.Join(root, pick(rng, dirPieces))
+	ioutil.WriteFile(filepath.Join(cwd, "play.cfg"), []byte(cfg), 0644)
+	env := [][2]string{
+		{"PATH", "/usr/bin:/bin"}, {"HOME", filepath.Join(root, "home")}, {"TMPDIR", filepath.Join(root, "tmp")},
+		{"SHELL", "/bin/bash"}, {"i", strconv.Itoa(50 + rng.Intn(40))}, {"FOREIGN_" + strconv.Itoa(rng.Intn(9)), "kept " + strconv.Itoa(rng.Intn(1000))},
+	}
+	for _, d := range c.Cast {
+		for _, w := range d.With {
+			if rng.Intn(3) == 0 && w.Name != "HOME" && w.Name != "TMPDIR" && w.Name != "i" {
+				dup := false
+				for _, x := range env {
+					if x[0] == w.Name {
+						dup = true
+					}
+				}
+				if !dup {
+					env = append(env, [2]string{w.Name, "stale"})
+				}
+			}
+		}
+	}
+	var envl []string
+	for _, x := range env {
+		envl = append(envl, x[0]+"="+x[1])
+	}
+	envl = append(envl, "PROBE_DIR="+probes)
+	cm := exec.Command(bin, "-q", "-k", "--disable-plots", "-o", c.DataDir, "play.cfg")
+	cm.Dir = cwd
+	cm.Env = envl
+	ob, err := cm.CombinedOutput()
+	note := ""
+	if err != nil {
+		note = fmt.Sprintf("shakespeare: %v: %s", err, string(ob))
+		if len(note) > 1500 {
+			note = note[:1500]
+		}
+	}
+	// the run directory
+	ents, _ := ioutil.ReadDir(c.DataDir)
+	for _, e := range ents {
+		if e.IsDir() && e.Name() != "latest" {
+			c.SubDir = e.Name()
+		}
+	}
+	c.RunDir = filepath.Join(c.DataDir, c.SubDir)
+	// what the probes saw
+	var recs []probeOut
+	files, _ := filepath.Glob(filepath.Join(probes, "*.json"))
+	sort.Strings(files)
+	for _, f := range files {
+		b, _ := ioutil.ReadFile(f)
+		var p probeOut
+		if json.Unmarshal(b, &p) == nil {
+			recs = append(recs, p)
+		}
+	}
+	for _, a := range c.actors() {
+		acts, spot, clean := c.resolve(a.Role)
+		all := append([]*actionDef{}, acts...)
+		if spot != nil {
+			all = append(all, spot)
+		}
+		if clean != nil {
+			all = append(all, clean)
+		}
+		wd := filepath.Join(c.RunDir, "artifacts", a.Name)
+		for _, x := range all {
+			e := execObs{Actor: a.Name, Script: x.Name, Index: a.Index, With: a.Def.With, Spotlight: x.Name == "_spotlight",
+				CallerCwd: wd, CallerEnv: env, CallerOut: "the play's pipe", StreamsOK: true, Note: note}
+			var rec *probeOut
+			for k := range recs {
+				if recs[k].Tag == x.Name && recs[k].Cwd == wd {
+					rec = &recs[k]
+					break
+				}
+			}
+			if rec == nil {
+				e.ExitErr = "no report from a command tagged " + x.Name + " in " + wd
+				if note != "" {
+					e.ExitErr += "; " + note
+				}
+				c.Execs = append(c.Execs, e)
+				continue
+			}
+			e.Ran = true
+			e.Cwd = rec.Cwd
+			e.Env = parseEnv(rec.Env)
+			e.Fd1, e.Fd2, e.Fd1Append, e.Fd2Append = rec.Fd1, rec.Fd2, rec.Fd1Append, rec.Fd2Append
+			if e.Spotlight {
+				// the play hands its own pipe to the spotlight: that is "the caller's output"
+				e.CallerOut = rec.Fd1
+				so, _ := ioutil.ReadFile(filepath.Join(c.RunDir, "csv", "aud."+a.Name+".so.csv"))
+				se, _ := ioutil.ReadFile(filepath.Join(c.RunDir, "csv", "aud."+a.Name+".se.csv"))
+				e.StreamsOK = strings.HasPrefix(rec.Fd1, "pipe:") && len(so) > 0 && len(se) > 0
+				if !e.StreamsOK {
+					e.Note = fmt.Sprintf("stdout -> %s, stderr -> %s; rows of the stdout signal: %d bytes, of the stderr signal: %d bytes", rec.Fd1, rec.Fd2, len(so), len(se))
+				}
+			} else {
+				lb, _ := ioutil.ReadFile(filepath.Join(wd, x.Name+".log"))
+				e.LogKept = strings.Contains(string(lb), "probe ran")
+			}
+			c.Execs = append(c.Execs, e)
+		}
+	}
+}
+
 // ---------------------------------------------------------------- Coq printing
 
 // S prints a byte string for Coq (string literals under list_byte_of_string
@@ -719,11 +954,11 @@ func (c *castCase) coq() string {
 		for _, x := range e.With {
 			w = append(w, "("+S(x.Name)+", "+S(x.Val)+", "+vh.Bool(x.Literal)+")")
 		}
-		execs = append(execs, fmt.Sprintf("(Build_exec_obs %s %s %s %s %s %s %s %s %s %s %s %s %s %s %s %s %s)",
+		execs = append(execs, fmt.Sprintf("(Build_exec_obs %s %s %s %s %s %s %s %s %s %s %s %s %s %s %s %s %s %s)",
 			S(e.Actor), S(e.Script), via, idx, vh.List(w), vh.Bool(e.Spotlight),
 			S(e.CallerCwd), coqPairs(e.CallerEnv), S(e.CallerOut),
 			vh.Bool(e.Ran), S(e.Cwd), coqPairs(e.Env),
-			S(e.Fd1), vh.Bool(e.Fd1Append), S(e.Fd2), vh.Bool(e.Fd2Append), vh.Bool(e.LogKept)))
+			S(e.Fd1), vh.Bool(e.Fd1Append), S(e.Fd2), vh.Bool(e.Fd2Append), vh.Bool(e.LogKept), vh.Bool(e.StreamsOK)))
 	}
 	return fmt.Sprintf("(Build_cast_case %s %s\n   %s\n   %s\n   %s\n   %s\n   %s)",
 		S(c.Shell), S(c.RunDir), vh.List(roles), vh.List(cast), vh.Bool(c.Rejected), vh.List(actors), vh.List(execs))
@@ -739,6 +974,7 @@ func main() {
 	seed := flag.Int64("seed", 1, "")
 	tier := flag.String("tier", "quick", "")
 	out := flag.String("out", ".", "")
+	bin := flag.String("bin", "", "the shakespeare binary (for the real plays)")
 	flag.Parse()
 	rng := vh.Rng(*seed)
 	os.Setenv("SHELL", "/bin/bash")
@@ -925,6 +1161,25 @@ func main() {
 		}
 		cases = append(cases, c)
 	}
+	// real plays: the commands are run by the play itself
+	var playCases []*castCase
+	nPlays := 6
+	if *tier == "thorough" {
+		nPlays = 40
+	}
+	if *bin == "" {
+		nPlays = 0
+	}
+	for pi := 0; pi < nPlays; pi++ {
+		c, cfg := genPlay(rng, self)
+		prng := rand.New(rand.NewSource(rng.Int63()))
+		root := filepath.Join(work, "play"+strconv.Itoa(pi))
+		playCases = append(playCases, c)
+		jobs = append(jobs, func() {
+			runPlay(prng, *bin, root, c, cfg)
+			os.RemoveAll(root)
+		})
+	}
 	for _, j := range jobs {
 		j := j
 		wg.Add(1)
@@ -986,9 +1241,22 @@ func main() {
 		}
 		shardSizes = append(shardSizes, hi-lo)
 		fmt.Fprintf(&sb, "(*SHARD %d*)\nDefinition cast_cases_%d : list cast_case := %s.\n", k, k, vh.ListNL(items))
+		if k == 0 {
+			// the real plays ride in the first shard
+			var pit []string
+			for _, c := range playCases {
+				pit = append(pit, c.coq())
+			}
+			fmt.Fprintf(&sb, "Definition play_casts : list cast_case := %s.\n", vh.ListNL(pit))
+		}
 	}
+	vh.WriteJSON(*out, "plays.json", playCases)
 	vh.WriteFile(*out, "cases.v", sb.String())
 	vh.WriteJSON(*out, "cases.json", cases)
+	nPlayExecs := 0
+	for _, c := range playCases {
+		nPlayExecs += len(c.Execs)
+	}
 	var samples []interface{}
 	for _, c := range cases {
 		if len(c.Execs) > 0 && len(samples) < 2 {
@@ -996,7 +1264,7 @@ func main() {
 		}
 	}
 	vh.WriteJSON(*out, "summary.json", map[string]interface{}{
-		"casts": len(cases), "shard_sizes": shardSizes, "executions": nExec, "nested_executions": nNested, "spotlight_executions": nSpot,
+		"casts": len(cases), "real_plays": len(playCases), "real_play_commands": nPlayExecs, "shard_sizes": shardSizes, "executions": nExec, "nested_executions": nNested, "spotlight_executions": nSpot,
 		"deliberately_invalid_casts": nInvalid, "prepare_dirs_errors": nHookErr, "multi_actor_lines": nMulti, "multi_actor_N_histogram": nHist,
 		"roles_shared_by_several_actors": nShared, "actors_with_extended_role": nExt,
 		"distinct_nontrivial": len(nontriv), "samples": samples, "outside_the_claim": outside,
